@@ -105,7 +105,7 @@ def run(ctx: Ctx) -> None:
                         stmt_key(node), what="an unsorted view of a set leaves the function that made it")
             else:
                 rep.ok("C03.R2", f.qname, desc + ": the ordered value stays local and reaches no sink", f.loc(node))
-    rep.floor("C03.R2", n2, 3)
+    rep.floor("C03.R2", n2, 2)
 
     # ---- R3 -------------------------------------------------------------------------------
     gc = prog.classes.get("dds._global_ctx.GlobalContext")
@@ -232,9 +232,12 @@ def run(ctx: Ctx) -> None:
             nm = st.targets[0].id
             if any(isinstance(g, ast.Global) and nm in g.names for g in f.own_nodes()):
                 esc.append((f, st))
+            globs = {g_ for gl in f.own_nodes() if isinstance(gl, ast.Global) for g_ in gl.names}
             for x in f.own_nodes():
-                if isinstance(x, ast.Assign) and isinstance(x.value, ast.Name) and x.value.id == nm and isinstance(x.targets[0], ast.Attribute):
-                    esc.append((f, x))
+                if isinstance(x, ast.Assign) and isinstance(x.value, ast.Name) and x.value.id == nm:
+                    t0 = x.targets[0]
+                    if isinstance(t0, ast.Attribute) or (isinstance(t0, ast.Name) and t0.id in globs):
+                        esc.append((f, x))
         elif not isinstance(st, (ast.Assign, ast.AnnAssign)):
             pass
     if bad or esc:
